@@ -6,6 +6,7 @@ CONSTANTS Pkgs <- P2
  Under <- UnderNested2
  RootPkg = "none"
  HashCoversSum = FALSE
+ SkipUnknown = FALSE
  SaveAlways = TRUE
  KeepAfterDefers = TRUE
  BehChoices <- Beh2Small
